@@ -95,6 +95,10 @@ def main(argv):
         return 0
     table = {}
     for sid in ids():
+        if meta(sid).get('retired'):
+            # the change no longer breaks the property on the current tree (a repair in /repo made it equivalent)
+            print('%-6s retired: %s' % (sid, meta(sid)['retired']))
+            continue
         try:
             res = run(sid, ns.tier, ALL if ns.allprops else None)
         except SystemExit as ex:
